@@ -1827,6 +1827,11 @@ class ECDHCipherText(CipherText):
         super(ECDHCipherText, self).__init__()
         self.c = bytearray(0)
 
+    def __copy__(self):
+        ct = super(ECDHCipherText, self).__copy__()
+        ct.c = bytearray(self.c)
+        return ct
+
     def __bytearray__(self):
         _bytes = bytearray()
         _bytes += self.p.to_mpibytes()
